@@ -5,5 +5,5 @@ CONSTANTS
   Big = @BIG@
   Nrhs = @NRHS@
   Seed = @SEED@
-INVARIANTS LuLemma SolveLemma CholLemma QrLemma LarftLemma PivotLemma
+INVARIANTS LuLemma SolveLemma CholLemma QrLemma LarftLemma PivotLemma InverseLemma
 CHECK_DEADLOCK FALSE
